@@ -99,6 +99,11 @@ static void submitter(Shared &sh, const ThreadProg &tp)
   for (auto &o : tp.ops)
   {
     vf::point("call");
+    if (o.op == "sleep")
+    {
+      std::this_thread::sleep_for(std::chrono::milliseconds(o.id));
+      continue;
+    }
     if (o.op == "count")
     {
       int n = (int)sh.pool->getTotalThreadCount();
@@ -225,6 +230,12 @@ static std::string runOne(const Config &cfg, const std::vector<ThreadProg> &prog
   for (auto &s : r.stuck) stuck.push_back(s);
   sh->tr.add(vf::Ev("End").str("outcome", oc).strs("stuck", stuck).b("drift", r.drift).i("steps", (long long)r.steps.size()));
   std::string text = sh->tr.text();
+  if (getenv("VF_DEBUG_STEPS"))
+  {
+    std::string d;
+    for (auto &st : r.steps) d += st.thread + ":" + st.op + " ";
+    fprintf(stderr, "STEPS %s\n", d.c_str());
+  }
   if (emitSched)
   {
     std::string s = "#S";
@@ -242,10 +253,16 @@ static std::string runOne(const Config &cfg, const std::vector<ThreadProg> &prog
 static vf::Options parsePolicy(const std::vector<std::string> &w)
 {
   vf::Options o;
-  if (!w.empty() && w[0] == "random")
+  if (!w.empty() && (w[0] == "random" || w[0] == "randomt"))
   {
     o.policy = vf::Policy::Random;
     o.seed = w.size() > 1 ? strtoull(w[1].c_str(), nullptr, 10) : 1;
+    if (w[0] == "randomt")
+    {
+      // timed waits may time out (and sleeps return) while other threads are runnable, not only when everything is idle
+      o.timeoutsOnlyWhenIdle = false;
+      o.timeoutPermille = 200;
+    }
   }
   else if (!w.empty())
   {
